@@ -377,6 +377,15 @@ func parseContracts(path, pkgPath string, external bool) ([]*Contract, map[strin
 					}
 					cur.ReplayFields[strings.TrimSpace(txt[:j])] = strings.TrimSpace(txt[j+1:])
 				}
+			case "mark":
+				// mark NAME "source text": the state just before the line
+				// containing the text is remembered; at(NAME, e) evaluates e in it
+				txt := rest(k + 1)
+				j := strings.Index(txt, "\"")
+				if j <= 0 || !strings.HasSuffix(txt, "\"") || len(txt) < j+2 {
+					return nil, nil, fmt.Errorf("%s:%d: mark NAME \"text\" expected", path, i+1)
+				}
+				cur.Asserts = append(cur.Asserts, &Clause{Kind: "mark", Name: txt[j+1 : len(txt)-1], Text: strings.TrimSpace(txt[:j]), File: path, Line: i + 1})
 			case "assert_at", "check_at":
 				// assert_at "source text" expr : expr must hold just before the
 				// first instruction of the line containing the text (and is
